@@ -153,6 +153,12 @@ class World:
         except core.SimBudget as e:
             self.outcome = "budget"
             self.error = e
+        except core.SimSpin as e:
+            import traceback
+
+            self.outcome = "spin"
+            self.error = e
+            self.spin_frames = [(f.filename, f.lineno, f.name) for f in traceback.extract_tb(e.__traceback__)][-12:]
         except Exception as e:  # harness or scenario error
             self.outcome = "error:" + type(e).__name__
             self.error = e
